@@ -123,11 +123,27 @@ pub fn run(ctx: &Ctx) -> Report {
         if r.chance(1, 30) {
             crate::gen::without_epb_use(&mut case.spec, r);
         }
+        if r.chance(1, 12) {
+            // twin contributions: two nearby carriers whose annual renewable energy is the same number, bit for bit (a heat
+            // pump and a solar system with the same values in another order; RED1 and RED2 with the same use - their
+            // regulatory factors are equal)
+            use crate::spec::Line;
+            let n = case.spec.n;
+            let v: Vec<f32> = (0..n).map(|_| (8 + r.below(800)) as f32 / 8.0).collect();
+            let mut w = v.clone();
+            w.reverse();
+            let (a, b) = *r.pick(&[("EAMBIENTE", "TERMOSOLAR"), ("RED1", "RED2"), ("EAMBIENTE", "TERMOSOLAR")]);
+            let srv = *r.pick(&["CAL", "ACS"]);
+            case.spec.lines.push(Line::Used { id: 61, srv: srv.into(), cr: a.into(), v, comment: String::new() });
+            case.spec.lines.push(Line::Used { id: 62, srv: srv.into(), cr: b.into(), v: w, comment: String::new() });
+            t.count("feature.twin_nearby_contributions");
+        }
         check_case(ctx, &case, t);
     });
     let quotas = vec![
         ("cases_checked".to_string(), tally.get("cases_checked"), 5000),
         ("feature.pv_exported".to_string(), tally.get("feature.pv_exported"), 1000),
+        ("feature.twin_nearby_contributions".to_string(), tally.get("feature.twin_nearby_contributions"), 200),
         ("feature.pv_exported_without_electric_use".to_string(), tally.get("feature.pv_exported_without_electric_use"), 50),
         ("feature.cogeneration_nearby_fuel".to_string(), tally.get("feature.cogeneration_nearby_fuel"), 100),
         ("feature.cogeneration_distant_fuel".to_string(), tally.get("feature.cogeneration_distant_fuel"), 100),
